@@ -68,6 +68,10 @@ type parseContext struct {
 	snippets map[string][]Node
 	macros   map[string][]string
 
+	// importedNodes is the amount of nodes inserted into the tree by
+	// 'import' directives so far, see expandImports.
+	importedNodes int
+
 	fileLocation string
 }
 
